@@ -275,5 +275,7 @@ func runC38(c *Ctx) []Obligation {
 		c.twins(P, "switch.twins.marshal", "(*codec.Codec).MarshalBinaryBare", "(*codec.Codec).MarshalBinaryLengthPrefixed", bare2lp, "the length-prefixed writer is the bare writer with every delegate replaced by its length-prefixed form"),
 		c.twins(P, "switch.twins.unmarshal", "(*codec.Codec).UnmarshalBinaryBare", "(*codec.Codec).UnmarshalBinaryLengthPrefixed", bare2lp, "the length-prefixed reader is the bare reader with every delegate replaced by its length-prefixed form, on every branch"),
 	)
+	// bulk readers: one fresh decode target per stored value (the generated Unmarshal refills byte fields in place)
+	out = append(out, c.decodeTargetsFreshIn(P, true)...)
 	return out
 }
